@@ -17,7 +17,11 @@ def actionName : Bulk.Action → String
   | .delMeta => "DELETE_METADATA" | .unknown => "?"
 
 def handle : Handler := fun j => do
-  let cont ← getBool j "cont"
+  let cont0 ← getBool j "cont"
+  -- the flag as spelled on the wire, when the input gives a spelling ("<bare>" = the parameter without a value)
+  let cont := match (getStr j "cont_raw").toOption with
+    | some raw => Bulk.contFlag (some (if raw == "<bare>" then "" else raw))
+    | none => cont0
   if (getBool j "broken").toOption.getD false then
     -- glue: a body that is not JSON never reaches ProcessBulk; bulkHandler answers 400 with no results
     return Json.mkObj [("status", toJson (400 : Nat)), ("results", Json.arr #[]), ("calls", Json.arr #[])]
